@@ -184,6 +184,18 @@ func stallScript(r *rand.Rand, id string, i int) *Script {
 	}
 	var h []Op
 	if dirReq {
+		// the other direction may hold an unread frame while the client sends:
+		// the handler first sends its headers or (bidi) a message nobody reads
+		switch r.Intn(3) {
+		case 0:
+			h = append(h, Op{Name: "SendHeader"})
+			s.Sched = append(s.Sched, "h")
+		case 1:
+			if s.Kind == "bidi" {
+				h = append(h, Op{Name: "Send"})
+				s.Sched = append(s.Sched, "h")
+			}
+		}
 		// client sends n, handler receives a few times at random points
 		for k := 0; k < n; k++ {
 			s.CS = append(s.CS, Op{Name: "Send"})
@@ -231,6 +243,9 @@ func stallScript(r *rand.Rand, id string, i int) *Script {
 	s.H = number(h)
 	s.CS = number(s.CS)
 	s.NHdr = maxArg(s.H, "SetHeader")
+	if n := maxArg(s.H, "SendHeader"); n > s.NHdr {
+		s.NHdr = n
+	}
 	return s
 }
 
